@@ -150,6 +150,8 @@ def run(ck):
     r3_checked(ck, w)
     r5_unchecked(ck, w)
     r6_bincode_limits(ck, w)
+    from . import c11
+    c11.r7_uncompressed_form(ck, w, rule='C16.R7')
 
 
 def switch_mentions(b, i, blk, want_callee=None, want_field=None, want_const=None):
